@@ -345,10 +345,11 @@ def run_tinydiff(ctx, spec):
       continue
     # batches of keys; truth: pairs with 0 < |d1-d2| (mod n, either sign) < md
     for rep in range(25):
-      ln = rng.choice([2, 3, 5, 9])
+      # every small shape of (batch, history list): 1 vs 1, 1 vs 2, 2 vs 1...
+      ln = rng.choice([1, 1, 2, 2, 3, 5, 9])
       ds = [rng.randint(1, n - 1) for _ in range(ln)]
       # plant structure
-      k = rng.below(5)
+      k = rng.below(5) if ln >= 2 else 4
       if k == 0:
         ds[1] = ds[0]                                  # identical keys
       elif k == 1:
@@ -356,8 +357,9 @@ def run_tinydiff(ctx, spec):
       elif k == 2 and ln >= 3:
         ds[2] = ds[0]
         ds[1] = (ds[0] + md - 1) % n or 1
-      nother = rng.choice([0, 0, 1, 3])
+      nother = rng.choice([0, 0, 1, 1, 2, 3])
       others = [rng.randint(1, n - 1) for _ in range(nother)]
+      ctx.count('diff_shape:%d-vs-%d' % (min(ln, 3), min(nother, 2)))
       if others and rng.chance(1, 2):
         others[0] = (ds[-1] - rng.randint(1, md - 1)) % n or 1
       pts = [mc.mulg(d) for d in ds]
@@ -509,7 +511,8 @@ def finalize(agg, tier):
   for k in ('table:rebuilt', 'table:cached-larger', 'history_difference_calls',
             'history_sweeps',
             'structured_keys_found', 'close_pairs', 'identical_keys',
-            'form:shift', 'form:repeat', 'large_weakkey_batches'):
+            'form:shift', 'form:repeat', 'large_weakkey_batches',
+            'diff_shape:1-vs-1', 'diff_shape:1-vs-2', 'diff_shape:2-vs-1'):
     if not c.get(k):
       inc.append('reach counter %s is zero' % k)
   return [], inc
